@@ -20,6 +20,9 @@ func init() { register("C20", "exploration", runC20) }
 
 func runC20(r *engine.Run) {
 	r.Rule = "E1 product enumeration. GPS: every day 1980-01-06..2100-01-01 at 00:00:00/12:00:00/23:59:59, every millisecond within ±3 s of each of the 18 leap instants, ±{1,2,3} ns around every whole second there, and the GPS-duration images of those windows; airtime: SF 5..12 x BW{125,250,500,812,1625} x payload 0..255 x CR 0..5 x header x LDRO x preamble 0..64 (complete); EIRP: all 256 indices and float32 bit patterns (quick: every float32 in [8,64) + one per exponent above; thorough: every finite float32 >= 8). A case is non-trivial when the implementation returned a value that was compared with the independent definition (not an error path)."
+	// the process time zone is read by the time package (and by whoever calls time.Local / time.Date with it)
+	// when the process starts: an answer of the environment, not an argument
+	r.EnvironmentVariants([]engine.EnvVariant{{Name: "TZ=Asia/Tokyo", Env: []string{"TZ=Asia/Tokyo"}}, {Name: "TZ=America/Los_Angeles", Env: []string{"TZ=America/Los_Angeles"}}, {Name: "TZ=Pacific/Kiritimati", Env: []string{"TZ=Pacific/Kiritimati"}}})
 	r.Rule += " E3 (schedules): GPS<->UTC conversions of three published instants and an airtime computation from three threads, including the first calls of the process, every interleaving of instrumented package-level accesses and synchronisation operations; every result equals the published value; no data race."
 	mergeSchedSummary(r, "C20")
 	r.Assume("published leap-second dates (18 since 1980) are transcribed in spec/leap.go from the IERS bulletin list, not from the library")
